@@ -50,6 +50,12 @@ def run(e: Engine, rep: Report):
              'filters with')
     rep.rule('R1.7', 'a recipient is marked settled only for None / Reply / '
              'permanent failure; transient failures go to the retry list')
+    rep.rule('R1.8', 'after the classification loop of '
+             '_handle_partial_relay every path tests both failure lists; '
+             'a non-empty permanent-failure list always reaches its bounce '
+             'loop')
+    rep.rule('R1.9', 'a per-recipient result mapping built by a relay is '
+             'total over envelope.recipients on every path that returns it')
     rep.not_decided += ['that retries eventually happen (scheduling '
                         'structure is C12)', 'behaviour of real redis / S3',
                         'what a custom relay returns']
@@ -68,6 +74,8 @@ def run(e: Engine, rep: Report):
     from . import c03
     c03.r34(e, rep, 'R1.6')
     r17(e, rep)
+    r18(e, rep)
+    c11.n7(e, rep, 'R1.9')
     rep.floor('R1.2', 5, 'removal sites')
     rep.floor('R1.5', 3, 'backend uses of the index argument')
 
@@ -566,3 +574,89 @@ def r17(e: Engine, rep: Report):
     rep.check(has_t, 'R1.7', where, 'transient results are collected',
               'transient per-recipient failures are no longer collected for '
               'retry', reason='isinstance(..., TransientRelayError) arm')
+
+
+# -------------------------------------------------------------------- R1.8
+def r18(e: Engine, rep: Report):
+    """Every recipient that was classified is acted on: both failure lists
+    are examined on every path after the classification loop, whatever the
+    other list led to."""
+    ctx = e.method_ctx(QUEUE, '_handle_partial_relay')
+    g = e.build(ctx, raises=lambda b, n, r: set())
+    where = ctx.func.qname
+    loop = None
+    for n in g.of_kind('iter'):
+        if isinstance(n.ast, ast.For) and '.items()' in ast.unparse(
+                n.ast.iter):
+            loop = n
+    if loop is None:
+        rep.error('anchor vanished: classification loop (R1.8)')
+        return
+    # the lists filled inside the loop
+    filled = {}
+    for n in g.nodes:
+        if n.kind == 'call' and e.call_name(n) == 'append' and any(
+                sc.kind == 'loop' and sc.ast is loop.ast for sc in n.scopes) \
+                and isinstance(n.ast.func.value, ast.Name):
+            filled[path_of(n.ast.func.value, n.frame)] = \
+                n.ast.func.value.id
+    done = [s for l, s in loop.succ if l == 'done']
+    if not done or not filled:
+        rep.error('anchor vanished: failure lists of _handle_partial_relay')
+        return
+    tests = {p: [t for t in g.of_kind('test')
+                 if path_of(t.ast, t.frame) == p] for p in filled}
+    after = dataflow.must_events_after(
+        g, lambda n: ['test:' + path_of(n.ast, n.frame)]
+        if n.kind == 'test' and path_of(n.ast, n.frame) in filled else [],
+        edge=c07.no_call_exc)
+    st = after.get(done[0].id)
+    for p, nm in sorted(filled.items()):
+        rep.evaluations += 1
+        ok = isinstance(st, dataflow.Top) or ('test:' + p) in (st or ())
+        w = None
+        if not ok:
+            pth = dataflow.find_path(
+                g, done[0], lambda x: x is g.exit,
+                avoid=lambda x: x.kind == 'test' and
+                path_of(x.ast, x.frame) == p,
+                edge_ok=lambda a, l, s: not isinstance(l, tuple))
+            w = dataflow.render_path(pth, 16) if pth else None
+        rep.check(ok, 'R1.8', where,
+                  'the list `%s` is examined on every path' % nm,
+                  'after the recipients were classified, a path reaches '
+                  'the end of _handle_partial_relay without looking at '
+                  '`%s`: recipients filed there are neither bounced nor '
+                  'retried although their outcome was recorded as settled'
+                  % nm, loc=loop.loc(),
+                  reason='tested on every path after the loop', witness=w)
+    # a non-empty permanent-failure list always reaches a _perm_fail loop
+    for p, nm in filled.items():
+        if 'perm' not in nm:
+            continue
+        for t in tests[p]:
+            for l, s in t.succ:
+                if l != 'T':
+                    continue
+                rep.evaluations += 1
+                st2 = dataflow.must_events_after(
+                    g, lambda n: ['bounce'] if n.kind in (
+                        'call', 'call_enter') and
+                    e.call_name(n) == '_perm_fail' else [],
+                    edge=lambda a, l2, s2, si: (
+                        None if isinstance(l2, tuple) else
+                        (si if not (a.kind == 'iter' and l2 == 'done' and
+                                    '_split_by_reply' in ast.unparse(
+                                        a.ast.iter)) else si))).get(s.id)
+                loops = [x for x in g.of_kind('iter')
+                         if isinstance(x.ast, ast.For) and
+                         '_split_by_reply' in ast.unparse(x.ast.iter) and
+                         x.id in dataflow.reachable(
+                             g, s, lambda a, l2, s2: not isinstance(
+                                 l2, tuple))]
+                rep.check(bool(loops), 'R1.8', where,
+                          'a non-empty `%s` reaches the bounce loop' % nm,
+                          'permanently failed recipients are collected but '
+                          'no bounce loop follows', loc=t.loc(),
+                          reason='for ... in _split_by_reply(...): '
+                          '_perm_fail')
